@@ -1,3 +1,5 @@
+//go:build hyield
+
 package main
 
 // C12: goroutines sharing schemas.
